@@ -3,7 +3,7 @@
    trace + base seed); the replicate seed is the GENERATED reseed_gen; the list of call sites that draw from the process-wide
    generator is the GENERATED global_rng_sites_gen. *)
 From SS Require Import Model.Prelude Gen.Gen_Dist Gen.Gen_Sim.
-From Coq Require Import String Permutation Sorting.Sorted.
+From Coq Require Import String Permutation Sorting.Sorted Qround.
 Local Open Scope list_scope.
 Open Scope string_scope.
 
@@ -89,6 +89,9 @@ Definition qmean_of (l : list Q) : Q := qsum l / inject_Z (Z.of_nat (List.length
 Definition qvar_of (l : list Q) : Q := qmean_of (map (fun x => (x - qmean_of l) * (x - qmean_of l)) l).
 Fixpoint zinsert (x : Z) (l : list Z) : list Z := match l with [] => [x] | h :: t => if Z.leb x h then x :: l else h :: zinsert x t end.
 Definition zsort (l : list Z) : list Z := fold_right zinsert [] l.
+(* res[:] = statistic when the member series is an int64 array (count results scaled by an integer pop_scale): NumPy casts the float to the
+   array's integer type, i.e. truncates (non-negative counts: floor) *)
+Definition stored_in_integer_series (q : Q) : Q := inject_Z (Qfloor q).
 (* np.quantile (linear interpolation) on integer-valued members: position q * (n - 1) on the sorted values *)
 Definition quantile (q : Q) (l : list Z) : Q :=
   let s := zsort l in
